@@ -102,7 +102,7 @@ Proof.
       cbn in G. rewrite Ef in G.
       apply app_nil_l2 in G. destruct G as [_ G]. apply app_nil_l2 in G. destruct G as [G1 G].
       apply app_nil_l2 in G. destruct G as [G2 _]. apply pwhen_nil in G1. apply pwhen_nil in G2.
-      cbn in GL. rewrite Ef in GL. apply app_nil_l2 in GL. destruct GL as [_ G3]. apply pwhen_nil in G3. cbn [andb] in G3.
+      cbn in GL. rewrite Ef in GL. apply app_nil_l2 in GL. destruct GL as [_ G3]. apply app_nil_l2 in G3. destruct G3 as [G3 _]. apply pwhen_nil in G3. cbn [andb] in G3.
       destruct (aget (b_rets (b <| b_now := t |>)) gid); rewrite inst_of_upd;
         (destruct (Z.eqb_spec i j) as [E|E]; [subst j|apply (C j Hj')]);
         destruct (C i Hj') as [A1 A2 A3 A4 A5 A6 A8 A7];
